@@ -4,8 +4,10 @@ package main
 // literals, success/error returns, guards.
 
 import (
+	"fmt"
 	"go/token"
 	"go/types"
+	"os"
 	"strings"
 
 	"golang.org/x/tools/go/ssa"
@@ -29,7 +31,11 @@ func classifyReturn(f *ssa.Function, r *ssa.Return) retClass {
 	if ei < 0 || ei >= len(r.Results) {
 		return retUnknown
 	}
-	return classifyErrValue(f, r.Results[ei], r.Block(), map[ssa.Value]bool{})
+	cls := classifyErrValue(f, r.Results[ei], r.Block(), map[ssa.Value]bool{})
+	if dbg := os.Getenv("SID_DEBUG_RET"); dbg != "" && strings.Contains(f.Name(), dbg) {
+		fmt.Fprintf(os.Stderr, "RET %s blk %d %s -> %d (%s)\n", f.Name(), r.Block().Index, r.String(), cls, describeValue(resolve(r.Results[ei])))
+	}
+	return cls
 }
 
 func classifyErrValue(f *ssa.Function, v ssa.Value, at *ssa.BasicBlock, seen map[ssa.Value]bool) retClass {
@@ -152,9 +158,9 @@ func nilTestDominates(f *ssa.Function, v ssa.Value, at *ssa.BasicBlock) (retClas
 			continue
 		}
 		var other ssa.Value
-		if bo.X == v {
+		if bo.X == v || sameSlotLoad(bo.X, v) {
 			other = bo.Y
-		} else if bo.Y == v {
+		} else if bo.Y == v || sameSlotLoad(bo.Y, v) {
 			other = bo.X
 		} else {
 			continue
@@ -1125,4 +1131,43 @@ func lastStoreBeforeDefers(ld *ssa.UnOp, al *ssa.Alloc) ssa.Value {
 		return nil
 	}
 	return nil
+}
+
+// sameSlotLoad: a and b are two loads of the same element xs[i] (same list value,
+// same index value) with no store into xs in the function: `if errs[i] != nil {
+// return res, errs[i] }`.
+func sameSlotLoad(a, b ssa.Value) bool {
+	la, ok1 := a.(*ssa.UnOp)
+	lb, ok2 := b.(*ssa.UnOp)
+	if !ok1 || !ok2 || la.Op != token.MUL || lb.Op != token.MUL {
+		return false
+	}
+	ia, ok1 := la.X.(*ssa.IndexAddr)
+	ib, ok2 := lb.X.(*ssa.IndexAddr)
+	if !ok1 || !ok2 {
+		return false
+	}
+	sameList := ia.X == ib.X
+	if !sameList {
+		// the list lives in a variable cell (captured by a closure): two loads of that cell
+		pa, oka := loadOf(ia.X)
+		pb, okb := loadOf(ib.X)
+		sameList = oka && okb && pa == pb
+	}
+	if !ok1 || !ok2 || !sameList || ia.Index != ib.Index {
+		return false
+	}
+	// no store through an element address of this list inside the same function
+	f := la.Parent()
+	clean := true
+	instrs(f, func(in ssa.Instruction) {
+		st, ok := in.(*ssa.Store)
+		if !ok {
+			return
+		}
+		if x, ok := st.Addr.(*ssa.IndexAddr); ok && x.X == ia.X {
+			clean = false
+		}
+	})
+	return clean
 }
